@@ -402,7 +402,9 @@ where
             self.line_buf.clear();
             let n = self.stream.read_line(&mut self.line_buf)?;
             let path_str = &self.line_buf;
-            if n == 0 {
+            // Every path line is written with a trailing newline.
+            // If the newline is missing, the report has been cut in the middle of the path.
+            if n == 0 || !path_str.ends_with('\n') {
                 return Err(Error::new(
                     ErrorKind::UnexpectedEof,
                     "Unexpected end of file.",
